@@ -13,7 +13,8 @@ RULE = ("seeded re-entrancy schedules: 2-8 recording systems, 1-4 actor scripts 
         "rejected duplicate add, rejected unknown removal}) over 3-8 timesteps; non-trivial = at least one "
         "effective mutation executed from inside a timestep while >=1 eligible system of the step's initial "
         "queue was still behind the actor; distinct = distinct abstract schedule shape (queue length, actor "
-        "position, action kind, relative target position / priority relation per effective mutation)")
+        "position, action kind, relative target position / priority relation per effective mutation)"
+        "; also: instance identity (id#generation), hot swap of an id, nested stepping of another model from inside a system, systems with value-based __eq__")
 COMPONENTS = {"real": ["ECAgent.Core.SystemManager (add_system, remove_system, execute_systems)", "ECAgent.Core.Model",
                        "ECAgent.Core.System.clean_up"],
               "stub": ["System.execute bodies are harness recording systems driven by the scenario script"]}
